@@ -18,7 +18,7 @@ RULE = ('(a) every history of depth <= D over the event menu {start (and take th
         'snapshot of fact identities when the goal starts; a retract skips facts that are gone) stepped alongside; after '
         'EVERY event the answer / exhaustion of the enumeration and the store read back must equal the model\'s. '
         '(b) every clause body of <= G goals over {p(X) p(Y) assertz(p(c)) asserta(p(c)) retract(p(X)) retract(p(Y)) '
-        'retract(p(a)) once(retract(p(X))) fail} compiled and run from each initial store under a deterministic step budget (termination), '
+        'retract(p(a)) once(retract(p(X))) \\+retract(p(X)) fail} compiled and run from each initial store under a deterministic step budget (termination), '
         'answers and final store compared with RefProlog; plus the classic drain and counter-update loops. '
         '[thorough: (c) explicit-state search over the model, one representative history per distinct model state, to '
         'depth 9.] states = distinct canonical model states (store + suspended enumerations); transitions = events '
@@ -181,7 +181,9 @@ Y = V('Y')
 GOALS = [call(F('p', X)), call(F('p', Y)), call(F('assertz', F('p', c))), call(F('asserta', F('p', c))),
          call(F('retract', F('p', X))), call(F('retract', F('p', Y))), call(F('retract', F('p', a))), FAIL,
          # a goal with a side effect under once/1: backtracking into it must not run it further
-         call(F('once', F('retract', F('p', X))))]
+         call(F('once', F('retract', F('p', X)))),
+         # ... and under \+ : negation asks its goal for ONE answer
+         ('\\+', call(F('retract', F('p', X))))]
 
 
 def body_cases(gmax):
